@@ -306,6 +306,12 @@ func init() {
 		"addr": {nargs: 1, typ: fixedType(reflect.TypeOf(tlb.MsgAddress{})),
 			build: func(a []string) (reflect.Value, bool) { return reflect.ValueOf(addrOf(a[0])), true },
 			dump:  func(v reflect.Value, _ []string) string { return addrStr(v.Interface().(tlb.MsgAddress)) }},
+		"anycast": {nargs: 1, typ: fixedType(reflect.TypeOf(tlb.Anycast{})),
+			build: func(a []string) (reflect.Value, bool) { return reflect.ValueOf(anyOf(a[0]).Value), true },
+			dump: func(v reflect.Value, _ []string) string {
+				x := v.Interface().(tlb.Anycast)
+				return fmt.Sprintf("%d,%d", x.Depth, x.RewritePfx)
+			}},
 		"cell": {nargs: 1, typ: fixedType(reflect.TypeOf(boc.Cell{})),
 			build: func(a []string) (reflect.Value, bool) {
 				cs := h.BuildCells(h.ParseTable(a[0]))
@@ -361,6 +367,8 @@ func maybeType(inner reflect.Type) reflect.Type {
 		return reflect.TypeOf(tlb.Maybe[tlb.Magic]{})
 	case reflect.TypeOf(tlb.Any{}):
 		return reflect.TypeOf(tlb.Maybe[tlb.Any]{})
+	case reflect.TypeOf(tlb.Anycast{}):
+		return reflect.TypeOf(tlb.Maybe[tlb.Anycast]{})
 	}
 	return nil
 }
@@ -449,7 +457,47 @@ func exJSONPrint(a []string) string {
 	return "ok " + h.Hex(b)
 }
 
+// exEnvelopeParse: json.parse envelope in|out <doc>
+func exEnvelopeParse(a []string) string {
+	doc := h.MustUnHex(a[2])
+	var sum string
+	var op *uint32
+	var val any
+	var err error
+	if a[1] == "in" {
+		var b abi.InMsgBody
+		err = b.UnmarshalJSON(doc)
+		sum, op, val = b.SumType, b.OpCode, b.Value
+	} else {
+		var b abi.ExtOutMsgBody
+		err = b.UnmarshalJSON(doc)
+		sum, op, val = b.SumType, b.OpCode, b.Value
+	}
+	ops := "-"
+	if op != nil {
+		ops = fmt.Sprint(*op)
+	}
+	if sum != abi.EmptyMsgOp && sum != abi.UnknownMsgOp {
+		// a (possibly unregistered) named body: the registry and the inner decoder are not part of the model
+		return "ok named " + h.Hex([]byte(sum)) + " " + ops
+	}
+	if err != nil {
+		return "err"
+	}
+	if sum == abi.EmptyMsgOp {
+		return "ok empty " + ops
+	}
+	c, ok := val.(*boc.Cell)
+	if !ok {
+		return "ok unknown-not-a-cell"
+	}
+	return "ok unknown " + ops + " " + h.Canon([]*boc.Cell{c})
+}
+
 func exJSONParse(a []string) string {
+	if a[0] == "envelope" {
+		return exEnvelopeParse(a)
+	}
 	doc := h.MustUnHex(a[len(a)-1])
 	r := c20Resolve(a[:len(a)-1], false)
 	p := reflect.New(r.typ)
@@ -960,6 +1008,14 @@ func (c *c20Gen) mutate(doc []byte, ascii bool) [][]byte {
 		`"1:2:Anycast(+1,1)"`, `"1:2:anycast(1,1)"`, `"1:2:Anycast(1,1)x"`, `"1:2:Anycast(1,1x)"`, `"1:2:Anycast(1,1))"`} {
 		add([]byte(s))
 	}
+	// rune-wise parsers: non-ASCII spaces where fmt skips them, runes whose low byte is a hex digit
+	if !ascii {
+		for _, s := range []string{"\"\xc2\xa0" + string(inner) + "\"", "\"\xe2\x80\x83" + string(inner) + "\"", "\"\xc5\x81\"", "\"\xc5\x81_\"",
+			"\"\xc4\xb0\xc4\xb1\"", "\"0:\xc5\x81\"", "\"1:2:Anycast(\xc2\xa01,\xe3\x80\x802)\"", "\"1:2:Anycast(1,\xc2\x852)\"",
+			"\"1:2:Anycast(1\xc2\xa0,2)\"", "\"\xc5\x81\xc5\x81C_\""} {
+			add([]byte(s))
+		}
+	}
 	// random byte replacement
 	alpha := []byte("\"0123456789abcdefABCDEFgxX_:-+ ,().nul{}[]\\\n\t\r/e")
 	for k := 0; k < 4 && len(doc) > 0; k++ {
@@ -968,7 +1024,8 @@ func (c *c20Gen) mutate(doc []byte, ascii bool) [][]byte {
 		add(b)
 	}
 	if !ascii && len(doc) > 0 {
-		for _, s := range []string{"\x80", "\xff", "\xc2\xa0", "\xc5\x81", "\xe2\x80\xa8", "\x00"} {
+		for _, s := range []string{"\x80", "\xff", "\xc2\xa0", "\xc5\x81", "\xe2\x80\xa8", "\x00", "\xe2\x80\x83", "\xe3\x80\x80",
+			"\xed\xa0\x80", "\xf0\x9f\x98\x80", "\xc0\xaf", "\xe0\x80\x80", "\xc2\x85", "\xe1\x9a\x80", "\xf4\x90\x80\x80", "\xc5"} {
 			k := g.Rng.Intn(len(doc) + 1)
 			add(cat(doc[:k], []byte(s), doc[k:]))
 		}
@@ -983,9 +1040,9 @@ func genC20(g *h.G) {
 	allDocs := map[string]struct{}{}
 
 	// emit: value ops + mutated documents for one value. toks = family tokens + value tokens; ttoks = type tokens.
-	emit := func(ttoks []string, vtoks []string, opts struct{ model, rt, ascii bool }) {
+	emit := func(ttoks []string, vtoks []string, opts struct{ model, rt, ascii, noPrint bool }) {
 		full := append(append([]string{}, ttoks...), vtoks...)
-		if opts.model {
+		if opts.model && !opts.noPrint {
 			g.Emit("json.print", full...)
 		}
 		if opts.rt {
@@ -1021,9 +1078,9 @@ func genC20(g *h.G) {
 			}
 		}
 	}
-	type o = struct{ model, rt, ascii bool }
-	full := o{true, true, false}
-	asciiOnly := o{true, true, true}
+	type o = struct{ model, rt, ascii, noPrint bool }
+	full := o{true, true, false, false}
+	asciiOnly := o{true, true, false, false} // rune-wise families: since the UTF-8 model, compared on all bytes too
 
 	for rep := 0; rep < reps; rep++ {
 		// generated machine integers: every width, boundaries and random values
@@ -1155,11 +1212,11 @@ func genC20(g *h.G) {
 		}
 		emit([]string{"bitstr"}, []string{c.bin(bl)}, asciiOnly)
 		a, la := c.addr(i)
-		emit([]string{"addr"}, []string{a}, o{true, !la, true})
+		emit([]string{"addr"}, []string{a}, o{true, !la, false, false})
 		a2, la2 := c.addr(i + 7)
 		switch g.Rng.Intn(8) {
 		case 0:
-			emit([]string{"maybe", "addr"}, []string{"some", a2}, o{true, !la2, true})
+			emit([]string{"maybe", "addr"}, []string{"some", a2}, o{true, !la2, false, false})
 		case 1:
 			emit([]string{"maybe", "addr"}, []string{"none"}, asciiOnly)
 		case 2:
@@ -1174,6 +1231,11 @@ func genC20(g *h.G) {
 		case 5:
 			emit([]string{"maybe", "bits", "32"}, []string{"some", h.Hex(g.RandData(256))}, full)
 			emit([]string{"maybe", "bits", "32"}, []string{"none"}, full)
+		case 7:
+			// a composite record without JSON methods of its own inside Maybe (encoding/json's struct codec)
+			g.Count("maybe_composite")
+			emit([]string{"maybe", "anycast"}, []string{"some", fmt.Sprintf("%d,%d", uint32(g.U64()), uint32(g.U64()))}, full)
+			emit([]string{"maybe", "anycast"}, []string{"none"}, full)
 		case 6:
 			emit([]string{"maybe", "big", "Uint256"}, []string{"some", new(big.Int).SetBytes(g.Bytes(32)).String()}, full)
 			emit([]string{"maybe", "magic"}, []string{"some", fmt.Sprint(uint32(g.U64()))}, full)
@@ -1193,16 +1255,16 @@ func genC20(g *h.G) {
 		if i%3 == 0 {
 			fam = "anycell"
 		}
-		emit([]string{fam}, []string{ts}, o{false, true, false})
+		emit([]string{fam}, []string{ts}, o{true, true, false, true}) // parse side modelled through the BOC reader
 		if i%5 == 0 {
-			emit([]string{"maybe", "anycell"}, []string{"some", ts}, o{false, true, false})
+			emit([]string{"maybe", "anycell"}, []string{"some", ts}, o{true, true, false, true})
 		}
 		wc := int64(int32(g.Rng.Uint32()))
 		if i%2 == 0 {
 			wc = int64(i%256 - 128)
 		}
 		g.Count("account_id")
-		emit([]string{"acct"}, []string{fmt.Sprint(wc), h.Hex(g.RandData(256))}, o{false, true, false})
+		emit([]string{"acct"}, []string{fmt.Sprint(wc), h.Hex(g.RandData(256))}, o{false, true, false, false})
 		op := "-"
 		if i%2 == 1 {
 			op = fmt.Sprint(uint32(g.U64()))
@@ -1213,10 +1275,20 @@ func genC20(g *h.G) {
 		if i%40 == 0 {
 			g.Emit("go.json.rt", which, "empty")
 		}
+		if i%8 == 0 {
+			if cd, err := json.Marshal(h.BuildCells(t)[0]); err == nil {
+				for _, d := range envelopeDocs(string(cd), "TextComment") {
+					g.Count("envelope_doc")
+					g.Emit("go.json.mal", which, h.Hex([]byte(d)))
+					g.Emit("json.parse", "envelope", envDir[which], h.Hex([]byte(d)))
+				}
+			}
+		}
 		if i%4 == 0 {
 			if d, err := json.Marshal(abi.InMsgBody{SumType: abi.UnknownMsgOp, Value: h.BuildCells(t)[0]}); err == nil {
-				for _, m := range c.mutate(d, false)[:20] {
+				for _, m := range c.mutate(d, false) {
 					g.Emit("go.json.mal", which, h.Hex(m))
+					g.Emit("json.parse", "envelope", envDir[which], h.Hex(m))
 				}
 			}
 		}
@@ -1240,6 +1312,36 @@ func genC20(g *h.G) {
 	for _, k := range known {
 		g.Count("body_known")
 		g.Emit("go.json.rt", "extout", "known", k, "-")
+	}
+}
+
+var envDir = map[string]string{"inbody": "in", "extout": "out"}
+
+// envelopeDocs: hand-made documents for the message-body envelopes around one cell document `cell` (a JSON string)
+func envelopeDocs(cell string, known string) []string {
+	return []string{
+		`{}`, ` { } `, `null`, `[]`, `"x"`, `5`, `true`, `{"SumType":""}`, `{"SumType":"","OpCode":7}`, `{"OpCode":7}`,
+		`{"SumType":"Unknown","Value":` + cell + `}`, `{"Value":` + cell + `,"SumType":"Unknown"}`,
+		`{"sumtype":"Unknown","value":` + cell + `}`, `{"SUMTYPE":"Unknown","VALUE":` + cell + `,"OPCODE":1}`,
+		"{\"\u017fumType\":\"Unknown\",\"Value\":" + cell + "}", "{\"\xc5\xbfumType\":\"Unknown\",\"Value\":" + cell + "}",
+		`{"SumType":"Unk\u006eown","Value":` + cell + `}`, `{"Sum\u0054ype":"Unknown","Value":` + cell + `}`,
+		`{"SumType":"Unknown"}`, `{"SumType":"Unknown","Value":null}`, `{"SumType":"Unknown","Value":5}`,
+		`{"SumType":"Unknown","Value":{"a":` + cell + `}}`, `{"SumType":"Unknown","Value":[` + cell + `]}`,
+		`{"SumType":"Unknown","Value":` + cell + `,"Value":null}`, `{"SumType":"Unknown","Value":null,"Value":` + cell + `}`,
+		`{"SumType":"x","SumType":"Unknown","Value":` + cell + `}`, `{"SumType":"Unknown","SumType":null,"Value":` + cell + `}`,
+		`{"SumType":null,"Value":` + cell + `}`, `{"SumType":5}`, `{"SumType":{}}`, `{"SumType":["Unknown"]}`, `{"SumType":true}`,
+		`{"SumType":"Unknown","OpCode":0,"Value":` + cell + `}`, `{"SumType":"Unknown","OpCode":4294967295,"Value":` + cell + `}`,
+		`{"SumType":"Unknown","OpCode":4294967296,"Value":` + cell + `}`, `{"SumType":"Unknown","OpCode":-1,"Value":` + cell + `}`,
+		`{"SumType":"Unknown","OpCode":1.0,"Value":` + cell + `}`, `{"SumType":"Unknown","OpCode":1e2,"Value":` + cell + `}`,
+		`{"SumType":"Unknown","OpCode":"5","Value":` + cell + `}`, `{"SumType":"Unknown","OpCode":null,"Value":` + cell + `}`,
+		`{"SumType":"Unknown","OpCode":5,"OpCode":null,"Value":` + cell + `}`, `{"SumType":"Unknown","OpCode":null,"OpCode":6,"Value":` + cell + `}`,
+		`{"SumType":"Unknown","OpCode":[1],"Value":` + cell + `}`, `{"SumType":"Unknown","OpCode":true,"Value":` + cell + `}`,
+		`{"SumType":"Unknown","Other":{"SumType":"x","q":[1,2,{"Value":3}]},"Value":` + cell + `}`,
+		`{ "SumType" : "Unknown" , "OpCode" : 12 , "Value" : ` + cell + ` }`, "{\n\t\"SumType\":\"Unknown\",\r\n\"Value\":" + cell + "\n}\n",
+		`{"SumType":"NoSuchBodyType","Value":{}}`, `{"SumType":"` + known + `","OpCode":1,"Value":{}}`, `{"SumType":"` + known + `"}`,
+		`{"SumType":"` + known + `","Value":null}`, `{"SumType":"unknown","Value":` + cell + `}`, `{"SumType":" Unknown","Value":` + cell + `}`,
+		`{"SumType":"Unknown","Value":` + cell + `,}`, `{"SumType":"Unknown" "Value":` + cell + `}`, `{"SumType":"Unknown","Value":` + cell,
+		`{"SumType":"Unknown","Value":` + cell + `}x`, `{SumType:"Unknown"}`, `{"SumType":"Unknown","Value":"zz"}`, `{"SumType":"Unknown","Value":""}`,
 	}
 }
 
